@@ -76,6 +76,9 @@ def gen_bpms(rng, t0, t_end, n, style="any", distinct=True):
 
 
 def gen_chart(rng, game, keys=None, n=None, style=None, n_bpm=None, empty_p=0.12):
+    valid = {"osu": range(1, 19), "qua": (4, 7, 8), "sm": (3, 4, 6, 7, 8), "bms": range(1, 10), "o2j": (7,)}[game]
+    if keys not in valid:
+        keys = None
     keys = keys or {"osu": rng.choice([1, 4, 4, 5, 7, 7, 8, 10, 18]), "qua": rng.choice([4, 7, 8]),
                     "sm": rng.choice([3, 4, 4, 6, 7, 8]), "bms": rng.choice([6, 8, 9]), "o2j": 7}[game]
     n = rng.choice([0, 1, 2, 5, 12, 25]) if n is None else n
